@@ -364,6 +364,9 @@ def boundaries_admitted(prog, rep):
             facts, nes = rrs.facts_at(bi)
             ge = idl is not None and rrs.prove(Lin.const(off).sub(idl), facts)
             gt = idl is not None and rrs.prove(Lin.const(off + 1).sub(idl), facts)
+            from .common import holds_at, want_relations
+            want_relations(rep, rule, "recycle scans the registry items (type TYPE_ID_EX)", holds_at(rir, bi),
+                           [("key_to_raw_type_id", "Eq", 0)], r.loc(st_.get("ln")), "next_type_id is advanced for registry items, the scan stops at the first other type")
             rep.ob(rule, "recycle counts id OFFSET_EXTENDED_TYPE_ID", ge and not gt,
                    "next_type_id = id + 1 for every registry id >= %#x" % off if ge and not gt else
                    ("registry id %#x (the first one the builder hands out) is skipped: the recycled builder hands it out again" % off if gt else
